@@ -88,7 +88,10 @@ namespace nmtools::array
     struct column_major_offset_t
     {
         using shape_type = meta::remove_cvref_t<decltype(index::reverse(meta::declval<shape_t>()))>;
-        using strides_type = meta::remove_cvref_t<decltype(index::reverse(index::compute_strides(meta::declval<shape_type>())))>;
+        using clipped_strides_type = meta::remove_cvref_t<decltype(index::reverse(index::compute_strides(meta::declval<shape_type>())))>;
+        // the strides of a clipped shape are not bounded by the clip bounds of single extents
+        using strides_type = meta::conditional_t<meta::is_clipped_index_array_v<shape_t>
+            , nmtools_array<size_t,(meta::len_v<shape_t> > 0 ? meta::len_v<shape_t> : 1)>, clipped_strides_type>;
 
         shape_type shape_;
         strides_type strides_;
@@ -96,7 +99,17 @@ namespace nmtools::array
 
         constexpr column_major_offset_t(const shape_t& shape, const strides_t&)
             : shape_(index::reverse(shape))
-            , strides_(index::reverse(index::compute_strides(shape_)))
+            , strides_([&](){
+                if constexpr (meta::is_clipped_index_array_v<shape_t>) {
+                    auto res = strides_type{};
+                    for (size_t i=0; i<(size_t)len(res); i++) {
+                        at(res,i) = (size_t)index::stride(shape_,len(res)-1-i);
+                    }
+                    return res;
+                } else {
+                    return index::reverse(index::compute_strides(shape_));
+                }
+            }())
         {}
 
         constexpr column_major_offset_t(const column_major_offset_t& other)
